@@ -83,12 +83,12 @@ harness! {
             if now != t[x] {
                 changed += 1;
                 let bucket = x / 2;
-                assert!(t[x] == f && now == 0 && (bucket == i1 || bucket == i2), "C14 delete clears one slot holding the class, nothing else");
+                assert!(t[x] == f && now == 0 && (bucket == i1 || bucket == i2), "C14 C01 delete clears one slot holding the class, nothing else");
             }
             x += 1;
         }
         if r {
-            assert!(changed == 1 && cf.n_elements == n0 - 1, "C14 delete removes exactly one copy and decrements len");
+            assert!(changed == 1 && cf.n_elements == n0 - 1, "C14 C01 delete removes exactly one copy and decrements len");
         } else {
             assert!(changed == 0 && cf.n_elements == n0, "C14 failed delete changes nothing");
         }
@@ -141,5 +141,40 @@ harness! {
         assert!(succinct::IntVec::len(&cf.table) == len0 && len0 == succinct::IntVec::len(&fresh.table), "C19 C11 clear keeps the table size");
         let mut x = 0;
         while x < 4 { assert!(cf.table.get(x as u64) == 0, "C19 clear frees every slot"); x += 1; }
+    }
+}
+
+// union into an EMPTY filter from an ARBITRARY 2x2 table holding at most two fingerprints (so no eviction is ever needed and the
+// 500-kick loop is provably not entered): every class keeps its multiplicity, whatever the slot positions (gaps!) in `other`
+harness! {
+    #[kani::unwind(6)]
+    fn c06_cuckoo_union_two_into_empty() {
+        let (other, t, bh) = arbitrary_filter();
+        assume(other.n_elements <= 2);
+        let mut a = CF::with_params_and_hash(SymRng, 2, 2, 2, bh.clone());
+        let r = a.union(&other);
+        assert!(r.is_ok(), "C06 C14 union of at most bucketsize fingerprints into an empty filter succeeds");
+        assert!(a.n_elements == other.n_elements, "C06 C01 union: len is the number of transferred fingerprints");
+        let mut f = 1u64;
+        while f < 4 {
+            let spans = (bh.hb_f[f as usize] & 1) == 1;
+            let mut ca = [0usize; 2];
+            let mut co = [0usize; 2];
+            let mut x = 0;
+            while x < 4 {
+                if a.table.get(x as u64) == f { ca[x / 2] += 1; }
+                if t[x] == f { co[x / 2] += 1; }
+                x += 1;
+            }
+            if spans {
+                assert!(ca[0] + ca[1] == co[0] + co[1], "C06 C01 C14 union keeps the multiplicity of every fingerprint class");
+            } else {
+                assert!(ca[0] == co[0] && ca[1] == co[1], "C06 C01 C14 union keeps the multiplicity of every fingerprint class");
+            }
+            f += 1;
+        }
+        let mut x = 0;
+        while x < 4 { assert!(other.table.get(x as u64) == t[x], "C06 the other operand is unchanged"); x += 1; }
+        vcover!(t[0] == 0 && t[1] != 0, "a free slot in front of a used slot of the same bucket");
     }
 }
